@@ -85,6 +85,8 @@ def evaluate(spec):
             sig, detail = "packets of no known connection in the output", repr(stray[0])
     labels = ["m:" + ("absent" if opts.get("m") is None else "bare" if not opts["m"] else "pairs%d" % len(opts["m"])),
               "p:%d%s" % (len(opts.get("p") or []), "rep" if opts.get("p_repeat") else ""), "kinds:" + "+".join(sorted({c["kind"] for c in spec["conns"]}))]
+    if opts.get("m") and any(c["ep"]["cport"] in [int(t.replace(",", "").split(":")[0]) for t in opts["m"]] for c in spec["conns"]):
+        labels.append("client-port-has-a-pair-in-m")
     if opts.get("m") is not None and any(c["ep"]["cport"] == model(opts, c["ep"]["sport"])[1] for c in spec["conns"]):
         labels.append("client-port-equals-exported-server-port")
     if len({(c["ep"]["cip"], c["ep"]["cport"]) for c in spec["conns"]}) < len(spec["conns"]):
@@ -126,6 +128,12 @@ def spec_strategy(draw):
                      for j, a in enumerate(srcs)]
     else:
         opts["m"] = None
+    if opts["m"] and draw(st.integers(0, 3)) == 0:
+        # the client port of the last connection is a port that has a pair of its own in -m (never a selected server port): only server
+        # ports are mapped
+        src = int(opts["m"][0].replace(",", "").split(":")[0])
+        if src not in DEFAULT_PORTS | set(p) and src not in {c["ep"]["cport"] for c in conns} and src != conns[-1]["ep"]["sport"]:
+            conns[-1]["ep"] = dict(conns[-1]["ep"], cport=src)
     if opts["m"] is not None and draw(st.integers(0, 3)) == 0:
         # the client port of connection 0 equals the port its server port is exported as (never a selected server port itself)
         tgt = model(opts, conns[0]["ep"]["sport"])[1]
